@@ -76,6 +76,7 @@ pub fn timing_world(topo: Topology, ctype: CType, cltv_delta: u16, fee_base_msat
 		node_delays: vec![],
 		node_tweaks: vec![],
 		chan_policies: vec![],
+		late_shutdown_script: vec![],
 	}
 }
 
